@@ -7,9 +7,10 @@
             enc must be UeMarshalMsg of the structure (PLMN octets per TS 24.008), the lengths
             left in the built structures and the decoded projection must be UeProjMsg of it, the
             decoded MCC/MNC the ones given; the IE's own Marshal/UnmarshalBinary likewise.
-            The only other layout that is classified (class plmn-reversed) is the one with
-            the decimal digits of MCC and MNC in reversed significance; everything is then judged
-            relative to that layout, so any further difference is still reported.
+            The PLMN octets of every sublist are classified: TS 24.008 (fine), exactly the layout
+            with the decimal digits of MCC and MNC in reversed significance (class plmn-reversed),
+            anything else (plmn-octets-wrong); everything else is judged relative to the octets
+            the built structures carry, so any further difference is still reported.
    PlmnRow  SetPlmnDigit for a row of (MCC, MNC): octets per TS 24.008, accepted on the whole
             domain MCC 100..999 x MNC 10..999, recovered by marshal + unmarshal.
    decode   (DecodeMsg, ListUnmarshal, ContentUnmarshal, InstrsUnmarshal, PartsUnmarshal,
@@ -35,16 +36,7 @@ UePlmnReversed(mcc, mnc) ==
      (IF mnc < 100 THEN 15 ELSE mnc \div 100) * 16 + (mcc \div 100),
      ((mnc % 100) \div 10) * 16 + (mnc % 10) >>
 
-\* ------------------------------------------------------------------ st -> structure
-RECURSIVE SubsOf(_, _)
-SubsOf(ss, rev) == IF ss = << >> THEN << >>
-  ELSE << [plmn |-> IF rev THEN UePlmnReversed(Head(ss).mcc, Head(ss).mnc) ELSE UePlmnToOctets(Head(ss).mcc, Head(ss).mnc),
-           ins |-> Head(ss).ins] >> \o SubsOf(Tail(ss), rev)
-RECURSIVE SrsOf(_, _)
-SrsOf(ss, rev) == IF ss = << >> THEN << >>
-  ELSE << [plmn |-> IF rev THEN UePlmnReversed(Head(ss).mcc, Head(ss).mnc) ELSE UePlmnToOctets(Head(ss).mcc, Head(ss).mnc),
-           rs |-> Head(ss).rs] >> \o SrsOf(Tail(ss), rev)
-MsgOf(st, rev) == UeMsg(st.pti, st.type, st.iei, SubsOf(st.subs, rev), SrsOf(st.srs, rev), st.cm)
+\* ------------------------------------------------------------------ built messages
 RECURSIVE MmOf(_)
 MmOf(ss) == IF ss = << >> THEN << >> ELSE << << Head(ss).mcc, Head(ss).mnc >> >> \o MmOf(Tail(ss))
 RECURSIVE InDomain(_)
@@ -69,19 +61,30 @@ BuildRest(e, x) ==
      ELSE /\ Chk(e.lenc = IEEnc(x), "Build", "ie-octets-differ", 0)
           /\ Chk(IEOf(e.ldec) = IEProj(x), "Build", "ie-decode-not-equal", 0)
 
+\* the structure with the PLMN octets the built structures actually carry: the PLMN layout is judged
+\* per sublist (TS 24.008 / digit-reversed / anything else), everything else relative to these octets
+RECURSIVE SubsWith(_, _)
+SubsWith(ss, ps) == IF ss = << >> THEN << >>
+                    ELSE << [plmn |-> Head(ps).plmn, ins |-> Head(ss).ins] >> \o SubsWith(Tail(ss), Tail(ps))
+RECURSIVE SrsWith(_, _)
+SrsWith(ss, ps) == IF ss = << >> THEN << >>
+                   ELSE << [plmn |-> Head(ps).plmn, rs |-> Head(ss).rs] >> \o SrsWith(Tail(ss), Tail(ps))
+PlmnLayout(op, ss, ps) ==
+  LET n == Len(ss)
+      rev == {i \in 1..n : ps[i].plmn # UePlmnToOctets(ss[i].mcc, ss[i].mnc) /\ ps[i].plmn = UePlmnReversed(ss[i].mcc, ss[i].mnc)}
+      oth == {i \in 1..n : ps[i].plmn # UePlmnToOctets(ss[i].mcc, ss[i].mnc) /\ ps[i].plmn # UePlmnReversed(ss[i].mcc, ss[i].mnc)}
+  IN /\ (IF rev = {} THEN TRUE ELSE Mis(op, "plmn-reversed", CHOOSE i \in rev : \A j \in rev : i <= j))
+     /\ (IF oth = {} THEN TRUE ELSE Mis(op, "plmn-octets-wrong", CHOOSE i \in oth : \A j \in oth : i <= j))
 BuildCheck(e) ==
   IF ~UeKnownType(e.st.type) THEN TRUE                      \* other message types: totality only
   ELSE IF ~InDomain(e.st.subs) \/ ~InDomain(e.st.srs) THEN TRUE
   ELSE IF e.perr THEN Mis(SetterOp(e.st.type), "plmn-rejected", 0)
   ELSE IF e.eerr THEN Mis("Build", "encode-error", 0)
-  ELSE LET xs == MsgOf(e.st, FALSE)
-           xr == MsgOf(e.st, TRUE) IN
-       IF e.enc = UeMarshalMsg(xs) THEN BuildRest(e, xs)
-       ELSE IF e.enc = UeMarshalMsg(xr)
-            THEN Mis(SetterOp(e.st.type), "plmn-reversed", 0) /\ BuildRest(e, xr)
-            ELSE IF Len(e.enc) = Len(UeMarshalMsg(xs)) /\ P7(e.built) # UeProjMsg(xs) /\ P7(e.built) # UeProjMsg(xr)
-                 THEN Mis("Build", "length-not-content", 2)
-                 ELSE Mis("Build", "octets-differ", 0)
+  ELSE IF Len(e.built.subs) # Len(e.st.subs) \/ Len(e.built.srs) # Len(e.st.srs) THEN Mis("Build", "octets-differ", 1)
+  ELSE LET xo == UeMsg(e.st.pti, e.st.type, e.st.iei, SubsWith(e.st.subs, e.built.subs), SrsWith(e.st.srs, e.built.srs), e.st.cm) IN
+       /\ PlmnLayout(SetterOp(e.st.type), IF e.st.type = 3 THEN e.st.srs ELSE e.st.subs, IF e.st.type = 3 THEN e.built.srs ELSE e.built.subs)
+       /\ Chk(e.enc = UeMarshalMsg(xo), "Build", "octets-differ", 0)
+       /\ BuildRest(e, xo)
 
 \* ------------------------------------------------------------------ PLMN rows
 PlmnClass(e, i) ==
